@@ -229,7 +229,7 @@ func VerifStubDecoderDecode(d *_cbor.Decoder, dest any) error {
 	}
 	if len(st.data) > 0 {
 		if v, ok := VerifDeposits[&st.data[0]]; ok {
-			if v == nil || !verifCopyShape(v, dest) {
+			if v == nil || !(verifAssign(dest, v) || verifCopyShape(v, dest)) {
 				return errVerifStub
 			}
 			st.pos = len(st.data)
